@@ -50,6 +50,67 @@ func r7errFromCall(v ssa.Value, seen map[ssa.Value]bool) (ssa.CallInstruction, b
 	return nil, false
 }
 
+// r7sentinelEdge: block x ends in a test `ev == <package-level error variable>` (or !=, or errors.Is(ev, <variable>)):
+// the successor on which the error IS the sentinel is returned — an end-of-input or not-found sentinel is not a failure.
+func r7sentinelEdge(x *ssa.BasicBlock, ev ssa.Value) *ssa.BasicBlock {
+	if len(x.Instrs) == 0 {
+		return nil
+	}
+	ifi, ok := x.Instrs[len(x.Instrs)-1].(*ssa.If)
+	if !ok {
+		return nil
+	}
+	isSentinel := func(v ssa.Value) bool {
+		if mi, ok := v.(*ssa.MakeInterface); ok {
+			v = mi.X
+		}
+		u, ok := v.(*ssa.UnOp)
+		if !ok || u.Op != token.MUL {
+			return false
+		}
+		_, isGlobal := u.X.(*ssa.Global)
+		return isGlobal
+	}
+	same := func(v ssa.Value) bool {
+		if v == ev {
+			return true
+		}
+		// the tested value and ev are merged by the same phi / ev is a phi over v
+		if p, ok := ev.(*ssa.Phi); ok {
+			for _, e := range p.Edges {
+				if e == v {
+					return true
+				}
+			}
+		}
+		if p, ok := v.(*ssa.Phi); ok {
+			for _, e := range p.Edges {
+				if e == ev {
+					return true
+				}
+			}
+		}
+		return false
+	}
+	switch c := ifi.Cond.(type) {
+	case *ssa.BinOp:
+		if c.Op != token.EQL && c.Op != token.NEQ {
+			return nil
+		}
+		if (same(c.X) && isSentinel(c.Y)) || (same(c.Y) && isSentinel(c.X)) {
+			if c.Op == token.EQL {
+				return x.Succs[0]
+			}
+			return x.Succs[1]
+		}
+	case *ssa.Call:
+		if r7calleeName(c) == "errors.Is" && len(c.Call.Args) == 2 && same(c.Call.Args[0]) && isSentinel(c.Call.Args[1]) {
+			return x.Succs[0]
+		}
+	}
+	return nil
+}
+
 // errorPathNotSwallowed: for every `if err != nil` / `if err == nil` on an error that comes from a call, walk forward
 // from the non-nil edge (never along a loop back edge): a return whose error result is the constant nil is a swallowed
 // failure. allow lists, by function key, the returns that are intended (one reason each).
@@ -118,8 +179,9 @@ func errorPathNotSwallowed(c *core.Ctx, rule string, pkgs []string, allow map[st
 						}
 					}
 				}
+				skip := r7sentinelEdge(x, ev)
 				for _, s := range x.Succs {
-					if s.Dominates(x) { // back edge
+					if s.Dominates(x) || s == skip { // back edge / the error is a sentinel (io.EOF, ErrNoMatch…), not a failure
 						continue
 					}
 					walk(s)
@@ -441,6 +503,29 @@ func init() {
 		Old: "strings.TrimSpace(header[i]) != strings.TrimSpace(column.Name)",
 		New: "strings.ToLower(strings.TrimSpace(header[i])) != strings.ToLower(strings.TrimSpace(column.Name))",
 		Rule: "R06q", Substr: "normalised by strings.ToLower", Why: "header names that differ in case are accepted"})
+
+	wrapRun("C16", func(c *core.Ctx) {
+		if c.CountRule("R16i") == 0 {
+			// R16i: a failure (an error other than a package-level sentinel such as io.EOF / ErrNoMatch) obtained from a
+			// call is never followed by a return with a nil error — in the readers that would turn a failing input
+			// reader into a clean end of input or a silently skipped record.
+			errorPathNotSwallowed(c, "R16i", []string{"idr", "extensions/omniv21", "customfuncs", "schemahandler", "header", "validation", "transformctx"}, r02mAllow)
+			c.Floor("R16i", 60, "error tests on the ingest path")
+		}
+	})
+	addDoc("C16", "R16i on the edge on which an error obtained from a call is non-nil and not a package-level sentinel (io.EOF, ErrNoMatch …), no return with a nil error is reachable without a loop back edge (all non-CLI packages).")
+	control(Control{ID: "c16-read-failure-swallowed", Prop: "C16", File: "extensions/omniv21/fileformat/flatfile/csv/reader.go",
+		Old: "\tif err := r.readLine(); err != nil && err != io.EOF {\n\t\treturn false, err\n\t}",
+		New: "\tif err := r.readLine(); err != nil && err != io.EOF {\n\t\treturn false, nil\n\t}",
+		Rule: "R16i", Substr: "MoreUnprocessedData error of", Why: "a failing input reader looks like the end of input"})
+
+	wrapRun("C08", func(c *core.Ctx) {
+		// R08j: names and values are compared exactly in the node package (seed C08-13: EqualFold in the array heuristic)
+		if c.CountRule("R08j") == 0 {
+			comparisonsExact(c, "R08j", []string{"idr"})
+		}
+	})
+	addDoc("C08", "R08j no operand of a string comparison in package idr derives from a case-folding or white-space-normalising function (element names that differ in case are different names).")
 
 	wrapRun("C07", func(c *core.Ctx) {
 		// R07n (= C14 R14a, edi package): run-time writes into the shared declaration tree change how the next segment
